@@ -507,7 +507,7 @@ Raise(r, e) ==
         <<"P:C07", "init.fault.dedicated", (pc[r] = "Init" /\ inner[r].fault) => e.kind = "InitEval">>,
         <<"P:C07", "tainted.ends.deliberately", (pc[r] # "Init" /\ bad[r] # {}) => e.kind \in DeliberateErrs>>,
         <<"P:C07", "trial.fault.survived", (pc[r] \in {"InTrial", "Post"} /\ inner[r].fault) => e.kind = "LambMax">>,
-        <<"P:C07", "rcond.fault.survived", (pc[r] \in {"InTrial", "Post"} /\ inner[r].rcf) => e.kind = "LambMax">>,
+        <<"P:C07", "rcond.fault.survived", (pc[r] \in {"InTrial", "Post"} /\ inner[r].rcf) => e.kind \in DeliberateErrs>>,
         <<"P:C03", "wellposed.no.raise", ~cfg[r].wellposed>>,
         <<"P:C08", "deadline.never.raises", (dlx[r] /\ cfg[r].twin = "C08") => twinAlsoAborts>>,
         <<"P:C09", "observer.never.raises", e.kind \notin DeliberateErrs => ~(cfg[r].debug \/ disp[r])>>,
